@@ -365,6 +365,26 @@ func c07Run(c *fw.Ctx, b fw.Batch) {
 				x[off] = v
 				for _, l := range []uint32{0, uint32(off), uint32(off + 1), 1 << 22, 3072} {
 					c07Judge(c, "huge", x, l, "Detect", fmt.Sprintf("huge|%d|%02x|%d", off, v, l))
+					if off <= 1<<20 && v == 0x00 {
+						// the reader path, also through the standard library's buffered reader
+						c07Judge(c, "huge", x, l, "DetectReader", "")
+						c07Judge(c, "huge", x, l, "DetectReaderBufio", "")
+					}
+				}
+			}
+			x[off] = 'x'
+		}
+	case "readers":
+		// texts of 5 … 20 KB with one binary byte at offsets around the buffer sizes of the
+		// standard readers (16, 512, 4096, 8192), limits on both sides of it
+		for _, off := range []int{15, 16, 17, 511, 512, 4095, 4096, 4097, 5000, 8191, 8192, 8193, 12000} {
+			x := bytes.Repeat([]byte("clean text line\n"), 1300)
+			for _, v := range []byte{0x00, 0x1F, 0x08} {
+				x[off] = v
+				for _, l := range []uint32{0, 3072, uint32(off), uint32(off + 1), 8192, 16384, 1 << 20} {
+					for _, e := range []string{"Detect", "DetectReader", "DetectReader1", "DetectReaderBufio", "DetectReaderBufio16"} {
+						c07Judge(c, "readers", x, l, e, fmt.Sprintf("readers|%d|%d|%s", off, l, e))
+					}
 				}
 			}
 			x[off] = 'x'
@@ -413,6 +433,7 @@ func init() {
 			bs = append(bs, batches("seeds", 4, 0, 900)...)
 			bs = append(bs, batches("huge", 1, 0, 900)...)
 			bs = append(bs, batches("files", 1, 0, 900)...)
+			bs = append(bs, batches("readers", 1, 0, 900)...)
 			n := 100000
 			if tier == "thorough" {
 				n = 15000000
